@@ -231,6 +231,11 @@ def _check_case(case, coll, coll_dir) -> Verdict:
             cmp("phases-at-Tn", f"{k}[{i}]", a, b, c, power=1, extra_abs=K * 1e-5 * size + 2 * res_floor)
     pat = v.violations[nviol:]
     del v.violations[nviol:]
+    if pat:
+        # the phases themselves differ beyond their allowance in this case: a later-stage difference is
+        # classified apart (it may be the second-order consequence of the displaced phases)
+        cls = cls + " after-phase-mismatch"
+        v.label("later_stages:after-phase-mismatch")
     if not v.violations:
         # ---- hydrodynamics
         v.checked("hydro")
